@@ -27,13 +27,30 @@ MAX_ROWS = 32
 
 
 def _const(e):
+    """constants, displays of constants, and closed lambdas (no free local variables: parameters, module aliases and
+    attribute chains on them only), operator.* / attrgetter("name") accessors"""
     if isinstance(e, ast.Constant):
         return True
     if isinstance(e, (ast.Tuple, ast.List)):
         return all(_const(x) for x in e.elts)
     if isinstance(e, ast.UnaryOp) and isinstance(e.op, ast.USub) and isinstance(e.operand, ast.Constant):
         return True
+    if isinstance(e, ast.Lambda):
+        a = e.args
+        if a.vararg or a.kwarg or a.kwonlyargs or a.defaults:
+            return False
+        bound = {p.arg for p in a.posonlyargs + a.args}
+        for x in ast.walk(e.body):
+            if isinstance(x, ast.Name) and x.id not in bound and x.id not in _MODULE_NAMES and not x.id[:1].isupper():
+                return False
+        return True
+    if isinstance(e, ast.Call) and U(e.func) in ("attrgetter", "operator.attrgetter", "methodcaller", "operator.methodcaller") and e.args and all(isinstance(a, ast.Constant) for a in e.args) and not e.keywords:
+        return True
     return False
+
+
+_MODULE_NAMES = {"np", "numpy", "math", "operator", "pandas", "pd", "scipy", "sp", "os", "len", "bool", "int", "float", "str", "abs", "min", "max", "sum", "any", "all",
+                 "expit", "logit", "isinstance", "tuple", "list", "sorted"}
 
 
 def _table(repo, f, it):
@@ -64,7 +81,9 @@ def _table(repo, f, it):
                         break
                 if v is not None:
                     break
-    if isinstance(v, (ast.Tuple, ast.List)) and v.elts and len(v.elts) <= MAX_ROWS and all(_const(x) for x in v.elts):
+    if isinstance(v, ast.Call) and U(v.func) in ("frozenset", "set", "tuple", "list") and len(v.args) == 1 and not v.keywords:
+        v = v.args[0]
+    if isinstance(v, (ast.Tuple, ast.List, ast.Set)) and v.elts and len(v.elts) <= MAX_ROWS and all(_const(x) for x in v.elts):
         return v.elts
     return None
 
@@ -155,6 +174,16 @@ class _Synonyms(ast.NodeTransformer):
             return ast.copy_location(ast.BinOp(left=n.args[0], op=_BITWISE[f](), right=n.args[1]), n)
         if f in ("np.invert", "np.bitwise_not") and len(n.args) == 1 and not n.keywords:
             return ast.copy_location(ast.UnaryOp(op=ast.Invert(), operand=n.args[0]), n)
+        # np.full(shape, False[, dtype=bool]) -> np.zeros(shape, dtype=bool); True -> np.ones; 0.0 / 1.0 -> float zeros / ones
+        if f == "np.full" and len(n.args) == 2 and isinstance(n.args[1], ast.Constant) and all(k.arg == "dtype" for k in n.keywords):
+            v = n.args[1].value
+            dt = U(n.keywords[0].value) if n.keywords else None
+            if isinstance(v, bool) and dt in (None, "bool", "np.bool_"):
+                return ast.copy_location(ast.Call(func=ast.Attribute(value=ast.Name(id="np", ctx=ast.Load()), attr="ones" if v else "zeros", ctx=ast.Load()),
+                                                  args=[n.args[0]], keywords=[ast.keyword(arg="dtype", value=ast.Name(id="bool", ctx=ast.Load()))]), n)
+            if isinstance(v, float) and v in (0.0, 1.0) and dt in (None, "float", "np.float64"):
+                return ast.copy_location(ast.Call(func=ast.Attribute(value=ast.Name(id="np", ctx=ast.Load()), attr="ones" if v == 1.0 else "zeros", ctx=ast.Load()),
+                                                  args=[n.args[0]], keywords=[]), n)
         return n
 
 
